@@ -164,6 +164,10 @@ fn run_op(store: &AnnotationStore, op: ROp) -> String {
 }
 
 fn build_store(dir: &str, standoff: bool, changed: bool) -> AnnotationStore {
+    build_store_kind(dir, standoff, changed, false)
+}
+
+fn build_store_kind(dir: &str, standoff: bool, changed: bool, json_resources: bool) -> AnnotationStore {
     let _ = std::fs::remove_dir_all(dir);
     std::fs::create_dir_all(dir).expect("dir");
     let mut store = AnnotationStore::new(Config::default().with_debug(false).with_workdir(dir.to_string())).with_id("c20");
@@ -179,7 +183,7 @@ fn build_store(dir: &str, standoff: bool, changed: bool) -> AnnotationStore {
     let rh: Vec<TextResourceHandle> = store.resources().map(|r| r.handle()).collect();
     for (i, h) in rh.iter().enumerate() {
         let r: &mut TextResource = store.get_mut(*h).unwrap();
-        r.set_filename(&format!("res{}.txt", i));
+        r.set_filename(&format!("res{}.{}", i, if json_resources && i == 0 { "resource.stam.json" } else { "txt" }));
     }
     let sh: Vec<AnnotationDataSetHandle> = store.datasets().map(|s| s.handle()).collect();
     for (i, h) in sh.iter().enumerate() {
@@ -189,6 +193,8 @@ fn build_store(dir: &str, standoff: bool, changed: bool) -> AnnotationStore {
     let path = format!("{}/c20.store.stam.json", dir);
     store.to_file(&path).expect("write");
     let mut loaded = AnnotationStore::from_file(&path, Config::default().with_debug(false).with_workdir(dir.to_string())).expect("reload");
+    // loading marks the members as changed: a first serialisation brings files and flags in sync; readers come afterwards
+    let _ = loaded.to_json_string(loaded.config());
     if changed {
         // a new annotation with new data marks store and dataset as changed
         loaded.annotate(AnnotationBuilder::new().with_id("late").with_target(SelectorBuilder::textselector("r1", Offset::simple(18, 22))).with_data("s", "k", 99isize)).unwrap();
@@ -286,6 +292,23 @@ fn run_schedule(store: &AnnotationStore, ops: &[ROp], prefix: &[usize], rng: Opt
     (results.into_iter().map(|m| m.into_inner().unwrap().unwrap_or(Err("no result".into()))).collect(), branch, chosen, trace)
 }
 
+/// name, size and modification time of every file of the work directory
+fn dir_state(dir: &str) -> Vec<(String, u64, u128)> {
+    let mut v: Vec<(String, u64, u128)> = std::fs::read_dir(dir)
+        .map(|rd| {
+            rd.flatten()
+                .filter_map(|e| {
+                    let m = e.metadata().ok()?;
+                    let t = m.modified().ok()?.duration_since(std::time::UNIX_EPOCH).ok()?.as_nanos();
+                    Some((e.file_name().to_string_lossy().to_string(), m.len(), t))
+                })
+                .collect()
+        })
+        .unwrap_or_default();
+    v.sort();
+    v
+}
+
 fn opname(o: ROp) -> String {
     format!("{:?}", o)
 }
@@ -331,10 +354,16 @@ fn judge(rep: &mut Report, storekind: &str, ops: &[ROp], base: &[String], got: &
 pub fn run(p: &Params, rep: &mut Report) {
     rep.rule = "stores with inline members and with stand-off (@include) resources and datasets (written to the work directory and reloaded; unchanged, and changed by one more annotation); reader operations: store.to_json_string, ToJson::to_json_string on a resource and on a dataset, TextResource::to_json_string, a SELECT query, QueryResultItem::to_json_string, related_text, the .parallel() adaptors. (i) controlled schedules: each reader parks at every yield point (serialisation-mode reads and writes, changed-flag reads and writes); for every pair of operations interleavings are enumerated depth-first up to a budget and then sampled with a seeded generator; triples are sampled; (ii) stress: 4-12 free-running threads with the hook injecting yield_now and microsecond sleeps. Every result is compared with the result of the same call running alone before and after, and the hooked dump must be unchanged. distinct_nontrivial = distinct (store kind, operation tuple, interleaving trace) executed".into();
     rep.assumptions = vec!["yield points sit before every read or write of Config.serialize_mode and the changed flags (feature verif); other code between them is treated as atomic by the controlled schedules and exercised by the stress runs".into()];
+    if let Some(v) = p.variant.as_deref() {
+        if v == "miri" || v == "tsan" {
+            sanitizer_workload(p, rep, v == "miri");
+            return;
+        }
+    }
     let budget_pairs: usize = if p.thorough { 600 } else { 60 };
     let sampled: usize = if p.thorough { 300 } else { 30 };
     let stress_rounds: usize = if p.thorough { 2000 } else { 150 };
-    let storekinds = [("inline", false, false), ("standoff-unchanged", true, false), ("standoff-changed", true, true)];
+    let storekinds = [("inline", false, false), ("standoff-unchanged", true, false), ("standoff-changed", true, true), ("standoff-json-resource", true, false)];
     // the work is split over shards by (store kind, operation pair)
     let mut jobs: Vec<(usize, Vec<ROp>)> = Vec::new();
     for sk in 0..storekinds.len() {
@@ -355,12 +384,13 @@ pub fn run(p: &Params, rep: &mut Report) {
             }
         }
         rep.cases += 1;
-        rep.current_case = json!({"case": ji, "seed": p.seed, "tier": if p.thorough { "thorough" } else { "quick" }});
+        rep.current_case = json!({"index": ji, "seed": p.seed, "tier": if p.thorough { "thorough" } else { "quick" }});
         let (kind, standoff, changed) = storekinds[*sk];
         let dir = format!("{}/c20-{}-{}", p.workdir, p.shard, ji);
-        let store = build_store(&dir, standoff, changed);
+        let store = build_store_kind(&dir, standoff, changed, kind == "standoff-json-resource");
         let base: Vec<String> = ops.iter().map(|o| run_op(&store, *o)).collect();
         let dump_before = dump_of(&store);
+        let files_before = dir_state(&dir);
         // (i) depth-first enumeration, bounded
         let mut prefix: Vec<usize> = Vec::new();
         let mut explored = 0usize;
@@ -429,20 +459,8 @@ pub fn run(p: &Params, rep: &mut Report) {
                 hs.into_iter().map(|h| h.join().unwrap_or(Err("join".into()))).collect()
             });
             rep.count("stress-rounds");
-            if clean && !judge(rep, kind, &assign[..2.min(assign.len())], &basea[..2.min(basea.len())], &results[..2.min(results.len())], json!({"stress_round": round, "threads": nthreads})) {
+            if clean && !judge(rep, kind, &assign, &basea, &results, json!({"stress_round": round, "threads": nthreads})) {
                 clean = false;
-            }
-            if clean {
-                for (i, r) in results.iter().enumerate() {
-                    if !matches!(r, Ok(s) if *s == basea[i]) {
-                        let ops2 = vec![assign[i], if assign[i] == ops[0] { ops[1] } else { ops[0] }];
-                        let base2 = vec![basea[i].clone(), String::new()];
-                        let got2 = vec![r.clone(), Ok(String::new())];
-                        judge(rep, kind, &ops2, &base2, &got2, json!({"stress_round": round, "threads": nthreads, "thread": i}));
-                        clean = false;
-                        break;
-                    }
-                }
             }
         }
         MODE.store(0, Ordering::SeqCst);
@@ -455,7 +473,66 @@ pub fn run(p: &Params, rep: &mut Report) {
         if dump_of(&store) != dump_before {
             rep.violation(format!("C20/{}/store-changed/{}+{}", kind, opname(ops[0]), opname(ops[1])), json!({"store": kind}));
         }
+        // readers do not write: the stand-off files are as they were
+        rep.eval();
+        let files_after = dir_state(&dir);
+        // (a changed stand-off member is written out by the first serialisation, that is documented behaviour)
+        if files_after != files_before && !changed {
+            rep.violation(format!("C20/{}/readers-rewrote-stand-off-files/{}+{}", kind, opname(ops[0]), opname(ops[1])), json!({"store": kind, "before": files_before, "after": files_after}));
+        }
         let _ = std::fs::remove_dir_all(&dir);
     }
     rep.extra.insert("yield_points_seen_in_stress".into(), json!(YIELDS_SEEN.load(Ordering::Relaxed)));
+}
+
+
+/// free-running readers for the undefined-behaviour interpreter (tiny) and the race detector (larger): the
+/// instrumentation is the oracle for memory and data-race errors, the result comparison stays on
+fn sanitizer_workload(p: &Params, rep: &mut Report, tiny: bool) {
+    rep.rule = "free-running reader threads over one shared store for the sanitizer builds (Miri: in-memory store, 2 threads, 4 operation pairs, 1 round; ThreadSanitizer: inline and stand-off stores, 4-8 threads, all serialisation pairs plus query/parallel, 40 rounds); results compared with the sequential baseline".into();
+    let pairs: Vec<(ROp, ROp)> = if tiny {
+        vec![(ROp::StoreJson, ROp::ResourceToJson), (ROp::DatasetToJson, ROp::ResourceInherentJson), (ROp::Query, ROp::Parallel), (ROp::RelatedText, ROp::QueryResultJson)]
+    } else {
+        let mut v = Vec::new();
+        for i in 0..ALL_OPS.len() {
+            for j in i..ALL_OPS.len() {
+                v.push((ALL_OPS[i], ALL_OPS[j]));
+            }
+        }
+        v
+    };
+    let kinds: Vec<(&str, bool, bool)> = if tiny { vec![("inline", false, false)] } else { vec![("inline", false, false), ("standoff-unchanged", true, false), ("standoff-changed", true, true)] };
+    let _ = sched(); // installs the hook (pass-through / stress mode)
+    for (kind, standoff, changed) in kinds {
+        let dir = format!("{}/c20-san-{}", p.workdir, kind);
+        let store = build_store(&dir, standoff, changed);
+        for (a, b) in &pairs {
+            rep.cases += 1;
+            let base = [run_op(&store, *a), run_op(&store, *b)];
+            MODE.store(if tiny { 0 } else { 2 }, Ordering::SeqCst);
+            let rounds = if tiny { 1 } else { 40 };
+            let nthreads = if tiny { 2 } else { 4 + (rep.cases as usize % 5) };
+            for _ in 0..rounds {
+                let results: Vec<(usize, Result<String, String>)> = std::thread::scope(|scope| {
+                    let hs: Vec<_> = (0..nthreads).map(|t| { let op = if t % 2 == 0 { *a } else { *b }; let store = &store; (t % 2, scope.spawn(move || std::panic::catch_unwind(std::panic::AssertUnwindSafe(|| run_op(store, op))).map_err(|_| "panic".to_string()))) }).collect();
+                    hs.into_iter().map(|(w, h)| (w, h.join().unwrap_or(Err("join".into())))).collect()
+                });
+                rep.eval();
+                rep.distinct(&format!("{}/{:?}/{:?}", kind, a, b));
+                for (w, r) in results {
+                    if !matches!(&r, Ok(s) if *s == base[w]) {
+                        let toggler = matches!(a, ROp::ResourceToJson | ROp::DatasetToJson) || matches!(b, ROp::ResourceToJson | ROp::DatasetToJson);
+                        if toggler {
+                            rep.violation("C20/explained:resource-or-dataset-serialisation-toggles-the-mode-cell-shared-by-all-config-clones".to_string(), json!({"store": kind, "ops": [opname(*a), opname(*b)], "sanitizer_build": true}));
+                        } else {
+                            rep.violation(format!("C20/{}/sanitizer-build/{}+{}/differs", kind, opname(*a), opname(*b)), json!({"store": kind, "alone": base[w].chars().take(400).collect::<String>(), "concurrent": r.unwrap_or_else(|e| e).chars().take(400).collect::<String>()}));
+                        }
+                        break;
+                    }
+                }
+            }
+            MODE.store(0, Ordering::SeqCst);
+        }
+        let _ = std::fs::remove_dir_all(&dir);
+    }
 }
